@@ -9,11 +9,12 @@ FS = 'aiocoap.cli.fileserver:FileServer'
 
 
 RTL_ORACLE = '''
-import logging, os, tempfile
+import atexit, logging, os, shutil, tempfile
 from pathlib import Path
 from aiocoap.cli.fileserver import FileServer
 from aiocoap import error
 ROOT = Path(tempfile.mkdtemp(prefix="c19root"))
+atexit.register(shutil.rmtree, ROOT, True)
 
 def mk_server():
     return FileServer(ROOT, logging.getLogger("c19"))
